@@ -33,6 +33,15 @@ pub struct ContractM {
 pub struct State {
     pub bank: Ledger,
     pub contracts: BTreeMap<String, ContractM>,
+    /// records of the chain's custom module (it writes one per message it is handed, before it accepts or rejects)
+    pub custom: BTreeMap<Vec<u8>, Vec<u8>>,
+}
+
+/// Raw key of the record the custom module writes for message `tag`.
+pub fn custom_record_key(tag: u32) -> Vec<u8> {
+    let mut k = crate::rawstate::prefix(&[b"vcustom"]);
+    k.extend_from_slice(format!("{}", tag).as_bytes());
+    k
 }
 
 #[derive(Clone, Debug)]
@@ -226,7 +235,7 @@ fn ok_str<T: std::fmt::Debug>(v: T) -> String {
 
 impl ChainM {
     pub fn new(block: (u64, u64, String)) -> Self {
-        ChainM { st: State { bank: Ledger::default(), contracts: BTreeMap::new() }, codes: BTreeMap::new(), block, api: ApiKind::Std }
+        ChainM { st: State { bank: Ledger::default(), contracts: BTreeMap::new(), custom: BTreeMap::new() }, codes: BTreeMap::new(), block, api: ApiKind::Std }
     }
 
     /// `api.norm`, noting for coverage when another spelling of a decodable address is accepted or rejected.
@@ -392,6 +401,9 @@ impl ChainM {
                     // a contract written against Empty sends a burn of nothing instead (see puppet::Flavor)
                     return Err(Why::NoPositiveAmount);
                 }
+                // the module records the message first and decides afterwards: a rejected message's record is rolled
+                // back with everything else
+                self.st.custom.insert(custom_record_key(*tag), format!("from:{}", sender).into_bytes());
                 if *fail {
                     return Err(Why::CustomFailed);
                 }
